@@ -523,11 +523,13 @@ static ares_status_t ares_append_requeue(ares_array_t **requeue,
                                          ares_server_t *server)
 {
   ares_requeue_t entry;
+  ares_status_t  status;
 
   if (*requeue == NULL) {
     *requeue = ares_array_create(sizeof(ares_requeue_t), NULL);
     if (*requeue == NULL) {
-      return ARES_ENOMEM;
+      status = ARES_ENOMEM;
+      goto fail;
     }
   }
 
@@ -535,7 +537,18 @@ static ares_status_t ares_append_requeue(ares_array_t **requeue,
 
   entry.qid    = query->qid;
   entry.server = server;
-  return ares_array_insertdata_last(*requeue, &entry);
+  status       = ares_array_insertdata_last(*requeue, &entry);
+  if (status == ARES_SUCCESS) {
+    return ARES_SUCCESS;
+  }
+
+fail:
+  /* The query can't be queued for a resend.  It must not stay behind
+   * detached from its connection's list yet still armed with a timeout (its
+   * connection pointer would dangle once the connection is closed), so fail
+   * it now. */
+  end_query(query->channel, NULL, query, status, NULL);
+  return status;
 }
 
 static ares_status_t read_answers(ares_conn_t *conn, const ares_timeval_t *now)
